@@ -1,7 +1,9 @@
 //! Bounded stand-in / failing-input search for unit U7 (pattern parser) — NOT a proof.
 //! Bound: every token sequence of length <= 5 over an 11-token alphabet, for one language
 //! host: src/parse.rs
-//! (var/app/lam/number payload); plus every prefix of a few valid texts through Pattern::parse / RecExpr::parse.
+//! (var/app/lam/number payload); plus every prefix of 14 valid, malformed and non-ASCII texts through
+//! Pattern::parse / RecExpr::parse (this also stands in for tokenize / crop_ident / ident_char when an edit moves
+//! them outside Verus's subset).
 use crate::*;
 use super::*;
 
@@ -37,7 +39,9 @@ pub fn run(only: &[String]) -> Vec<String> {
     let n = al.len();
     let mut count = vec![0usize; 8];
     if want("parse_pattern") || want("parse_pattern_nosubst") || want("parse_nested_syntax_elem") {
-        for len in 0..=5usize {
+        // thorough tier (VERIF_BOUNDED_DEEP): sequences up to length 6
+        let maxlen = if std::env::var("VERIF_BOUNDED_DEEP").is_ok() { 6usize } else { 5 };
+        for len in 0..=maxlen {
             let total = n.pow(len as u32);
             for code in 0..total {
                 let mut c = code; let mut toks = Vec::new();
@@ -62,14 +66,21 @@ pub fn run(only: &[String]) -> Vec<String> {
             }
         }
     }
-    let texts = ["(app (var $x) ?y)[?a := (lam $z (var $z))]", "(lam $x (app (var $x) 7))", "(var $x (var $y))", "(app ?a ?b ?c)", "?x", "7", "?b[?x := (app ?a ?c ?d)]", "(lam $y ?t)[(var $x ?y) := ?z]"];
+    // text level (tokenizer + parser): every prefix (at char boundaries) of valid, malformed and non-ASCII texts
+    let texts = ["(app (var $x) ?y)[?a := (lam $z (var $z))]", "(lam $x (app (var $x) 7))", "(var $x (var $y))", "(app ?a ?b ?c)", "?x", "7",
+                 "?b[?x := (app ?a ?c ?d)]", "(lam $y ?t)[(var $x ?y) := ?z]", "(app ?\u{3bb} ?y)", "(var $\u{e9})", "(caf\u{e9} ?x ?y)", "\u{3bb}\u{a0}x (", "?a[$x := ?\u{1d4b3}]", "( : $ ? := ]"];
+    let tok_fns = ["tokenize", "crop_ident", "ident_char"];
+    let tok_label: Option<String> = only.iter().find(|x| tok_fns.contains(&x.as_str())).cloned();
     for t in texts {
         for cut in 0..=t.len() {
+            if !t.is_char_boundary(cut) { continue; }
             let s = &t[..cut];
-            if want("Pattern::parse") && count[3] < 3 {
+            if (want("Pattern::parse") || tok_label.is_some()) && count[3] < 3 {
+                let label = tok_label.clone().unwrap_or("Pattern::parse".to_string());
+                let clause = if tok_label.is_some() { "C18:tokenize.total" } else { "C18:Pattern_parse.arity" };
                 match std::panic::catch_unwind(|| Pattern::<BL>::parse(s).ok().map(|p| arity_ok(&p))) {
-                    Err(_) => { count[3] += 1; fails.push(format!("FAIL Pattern::parse C18:Pattern_parse.arity text={:?} -> panic", s)); }
-                    Ok(Some(false)) => { count[3] += 1; fails.push(format!("FAIL Pattern::parse C18:Pattern_parse.arity text={:?} -> node with wrong number of children", s)); }
+                    Err(_) => { count[3] += 1; fails.push(format!("FAIL {} {} text={:?} -> panic", label, clause, s)); }
+                    Ok(Some(false)) => { count[3] += 1; fails.push(format!("FAIL {} {} text={:?} -> node with wrong number of children", label, clause, s)); }
                     _ => {}
                 }
             }
